@@ -114,6 +114,8 @@ def discr_of_opaque(eng, v):
 def named_const(eng, c, path):
     tail = path.split('::')[-1]
     segs = path.split('::')
+    if 'SizedTypeProperties' in c and tail in ('ALIGN', 'SIZE'):
+        return Int(8, 64)       # only used by the compiler-inserted misaligned/null pointer checks around Box::new_uninit
     if tail == 'MAX' or tail == 'MIN':
         from engine import int_ty
         import re as _re
